@@ -47,9 +47,10 @@ package mqttproxy
 // connections that have none; connections that are not connected with a stored
 // session at that instant are not judged any more, all others must go on
 // receiving).
-// Two further ranges are behind switches that are OFF (candidate findings,
-// reported): c15EmptyClientIDs (two clients with a zero-length client id) and
-// c15CheckSubackCodes (SUBACK return codes as granted QoS).
+// The SUBACK return codes are the granted QoS of the reference model
+// (c15CheckSubackCodes, ON; class C15.suback-return-code). One further range is
+// behind a switch that stays OFF: c15EmptyClientIDs (two clients with a
+// zero-length client id; owner's decision: outside the statement).
 //
 // Cluster view (about a third of the scenarios): the broker's member look-up
 // (memberURL, made for every message that is published as not yet distributed)
@@ -142,6 +143,8 @@ package mqttproxy
 //        did not drop
 //   C15.backend-duplicate              handed over more often than transmitted
 //   C15.puback-unexpected-id
+//   C15.suback-return-code             a SUBACK grants a filter more than the
+//        SUBSCRIBE asked for, or has another number of return codes than filters
 //   C15.local-delivery-lost-on-member-lookup-failure   a message published as not
 //        yet distributed missed an eligible local subscriber and its member
 //        look-up failed (or the look-up was not even made while the publish
@@ -239,16 +242,20 @@ const c15HangScenarios = false
 
 // c15EmptyClientIDs switches the generation of two different clients that both
 // connect with a zero-length client id and cleanSession=1 (MQTT-3.1.3-6: the
-// server must treat each as a client of its own). OFF: reported as a candidate
-// finding (C15.unexpected-disconnect), waiting for the owner's decision.
+// server must treat each as a client of its own). OFF for good: easegress treats
+// them as one client id (the second connection takes the first over); the owner
+// decided that this is MQTT conformance outside the statement of C15 and
+// recorded it as an observation.
 const c15EmptyClientIDs = false
 
 // c15CheckSubackCodes switches the use of the SUBACK return codes: the granted
 // QoS becomes the subscription QoS of the reference model, and a SUBACK that
 // grants more than was requested or has another number of return codes than
-// the SUBSCRIBE had filters is C15.suback-return-code. OFF: reported as a
-// candidate finding, waiting for the owner's decision.
-const c15CheckSubackCodes = false
+// the SUBSCRIBE had filters is C15.suback-return-code. Found: every SUBACK
+// granted QoS 1 (repaired in /repo by 1ae1445; the repair grants at most QoS 1,
+// the broker does not deliver at QoS 2: a request for QoS 2 is granted 1, which
+// is a lower grant and legal).
+const c15CheckSubackCodes = true
 
 // ---- scenario ---------------------------------------------------------------
 
@@ -1282,8 +1289,13 @@ func (s *c15Store) getPrefix(prefix string, keysOnly bool) (map[string]string, e
 
 func (s *c15Store) put(key, value string) error {
 	s.nPut++
-	s.last[c15StoreID(key)] = value
-	return s.in.put(key, value)
+	// (the inner store's lock is a scheduling point: the value counts as stored
+	// only once the inner put has returned)
+	err := s.in.put(key, value)
+	if err == nil {
+		s.last[c15StoreID(key)] = value
+	}
+	return err
 }
 
 func (s *c15Store) delete(key string) error {
@@ -3235,7 +3247,7 @@ func TestVerifC15(t *testing.T) {
 			"local delivery must not depend on the cluster member look-up or on the peers; the HTTP status stays 200 when the look-up fails",
 			"options that must not change anything are drawn independently: topicCacheSize 1-5, maxAllowedConnection = number of connections of the scenario + 0..3, connectionLimit >= 50 requests / 10000 bytes per period, pass-through pipelines for the other packet types, credentials, keep-alive >= 1 h, MQTT 3.1, wills (not judged), unusual client ids, empty/blank/non-ASCII topic levels (all legal by MQTT 3.1.1 4.7.3), QoS 2 subscription requests (eligible for QoS 0 and 1 messages), RETAIN on client PUBLISH (not judged), payloads up to 6000 bytes",
 			"loss of the session delete watch: connections that are connected and whose session is in the storage at that instant must stay connected and go on receiving; the others (store lag, handshake racing the re-listing: C16) are not judged any more",
-			fmt.Sprintf("switched off pending the owner's decision: c15EmptyClientIDs=%v (two clients with zero-length client ids are one client for the broker), c15CheckSubackCodes=%v (SUBACK always grants QoS 1)", c15EmptyClientIDs, c15CheckSubackCodes),
+			fmt.Sprintf("the SUBACK return code of a filter is its subscription QoS (granted more than requested, or another number of codes than filters: C15.suback-return-code; granted less, e.g. 1 for a requested 2: legal) (c15CheckSubackCodes=%v); two clients with zero-length client ids are not generated (c15EmptyClientIDs=%v: one client id for easegress, outside the statement by the owner's decision)", c15CheckSubackCodes, c15EmptyClientIDs),
 			"not generated: QoS2, invalid filters, '$' topics, wills, retained, keep-alive expiry (keep-alive 0), storage latency/errors (C16), SUBSCRIBE/UNSUBSCRIBE by a connection that is going to be superseded",
 			"cleanSession=0 on a re-used client id: from its CONNACK on the connection holds the subscriptions of the stored session the broker was answered with during the handshake (restored from storage) or the acknowledged subscriptions of the predecessor (no storage look-up: inherited in memory); filters on which a restored session differs from the predecessor's acknowledged state (known C16 store-lag findings) are in flux until the connection (un)subscribes them itself: both outcomes accepted; more than one look-up during a handshake: connection not judged",
 			"redelivery until PUBACK is required on restored and inherited sessions like on any other; a PUBACK for the same message and packet id sent on a superseded connection that shares the session object counts as the client's acknowledgement",
